@@ -1246,5 +1246,5 @@ LEVEL_TEXT = ("Proof (soundness) + search (termination, no-raise). Theorems (Lea
               "generated, malformed and all shipped graphs per quick run).")
 LEVEL_NOTE = ("Theorems speak about runs of the strict model (exact constant folds/casts, one dtype for named constants); strict == plain result is checked per "
               "expression. Not theorems: termination, absence of exceptions, complex kinds, lists, mixed-precision floating point — these are searched on the real "
-              "rewriter with exact Fraction and NumPy interpreters. Trusted: Lean kernel; the hand model (validated each run); the semantics; Soft float == NumPy.")
+              "rewriter with exact Fraction and NumPy interpreters. The unsound relop rows found by this check were fixed in /repo (6a4e7cd); 10 other findings are listed as known. Trusted: Lean kernel; the hand model (validated each run); the semantics; Soft float == NumPy.")
 TECHNIQUE = "Lean 4 proof over a hand model + regenerated tables (per-row decide) + line-protocol correspondence + exact/NumPy differential search on the real rewriter"
